@@ -372,7 +372,7 @@ class C03(RunSpec):
             # local searches that make no iteration at all (flat objective): whatever the deme does then must still be counted
             p.update({"fams": ["plateau", "constant", "plateau"], "leaf": _cycle(["local", "local_maxiter"], idx // 10), "levels": [2, 3], "allow_cutoff": False})
         if idx % 7 == 6:
-            p = {"kind": "minimize", "dim": (2, 4), "budget": "maxfun", "vertex_collapse": idx % 21 == 20}
+            p = {"kind": "minimize", "dim": (2, 4), "budget": "both" if idx % 28 == 13 else "maxfun", "vertex_collapse": idx % 21 == 20}
         return p
 
     def make_case(self, seed, idx, tier):
@@ -389,6 +389,7 @@ class C03(RunSpec):
             ("engine.local", 1, "local deme"),
             ("C03.cutoff_exhausted_seen", 1, "budget exhausted"),
             ("C03.minimize_nfev_checked", 1, "minimize runs"),
+            ("C03.minimize_with_both_limits_whose_maxiter_metaepochs_would_cost_more_than_maxfun", 2, "minimize(maxfun=N, maxiter=M) runs that spent the whole evaluation budget"),
             ("C03.minimize_runs_with_5_or_more_repeated_points", 1, "minimize() runs in which the objective was called >= 5 times at a point it had been called at before"),
             ("C03.local_deme_without_any_iteration", 2, "local deme whose search made no iteration"),
         ]
